@@ -313,7 +313,7 @@ func checkHostileResponse(rec *stats.Recorder, c hostileResp) string {
 
 // brokenJSONObject is a deliberately tolerant judgement (lenient number spellings, duplicate keys, text that is not UTF-8
 // are NOT its business): it reports a body that is structurally not one JSON object - empty, another kind of value,
-// brackets or strings left open (a truncated document), a closing bracket that does not match, bytes after the object.
+// brackets or strings left open (a truncated document), more closing than opening brackets, bytes after the object.
 func brokenJSONObject(body string) string {
 	i := 0
 	for i < len(body) && strings.ContainsRune(" \t\r\n", rune(body[i])) {
@@ -344,8 +344,14 @@ func brokenJSONObject(body string) string {
 		case '{', '[':
 			stack = append(stack, ch)
 		case '}', ']':
-			if len(stack) == 0 || (ch == '}') != (stack[len(stack)-1] == '{') {
+			// (a document in which a bracket closes one of the other kind is not judged at all: a decoder that skips the value
+			// of an unknown member by counting nesting depth - as the library's lexer does - sees another structure than a
+			// strict parser, and where it stops is its own business)
+			if len(stack) == 0 {
 				return "a closing bracket matches no opening one"
+			}
+			if (ch == '}') != (stack[len(stack)-1] == '{') {
+				return "" // brackets of different kinds close each other: not judged (see above)
 			}
 			stack = stack[:len(stack)-1]
 			if len(stack) == 0 {
